@@ -45,7 +45,8 @@ def strategy(draw, tier="quick"):
     return {"nf": nf, "cells": cells, "mols": mols, "scatter": draw(st.sampled_from(["atoms", "atoms", "molecules"])),
             "op": draw(st.sampled_from(["whole", "whole", "image", "image", "image-nowhole"])),
             "inplace": draw(st.booleans()), "anchors": anchors,
-            "bond_order": draw(st.sampled_from(["as-built", "shuffled"])), "seed": draw(st.integers(0, 2 ** 31))}
+            "bond_order": draw(st.sampled_from(["as-built", "shuffled"])), "seed": draw(st.integers(0, 2 ** 31)),
+            "layout": draw(st.sampled_from(["blocks", "blocks", "interleaved", "by-position"]))}
 
 
 def build(case):
@@ -58,6 +59,7 @@ def build(case):
     rng = np.random.Generator(np.random.PCG64(case["seed"]))
     top = md.Topology()
     ch = top.add_chain()
+    residues = []
     coords = []      # per molecule: (n,3) local coordinates (same in every frame, plus small per-frame noise)
     bonds, mol_atoms = [], []
     base = 0
@@ -86,17 +88,44 @@ def build(case):
         inv = np.argsort(perm)
         x = x[inv]
         mb = [(int(perm[a]), int(perm[b])) for a, b in mb]
-        res = top.add_residue("MOL" if n > 1 else "ION", ch)
-        for k in range(n):
-            top.add_atom("C%d" % k, elem.carbon if n > 1 else elem.sodium, res)
+        residues.append(None)
         bonds += [(base + a, base + b) for a, b in mb]
         mol_atoms.append(list(range(base, base + n)))
         coords.append(x)
         base += n
+    # global numbering of the atoms: molecule after molecule, or molecules interleaved (solvent written "all O, then all H";
+    # a ligand listed in pieces) - a molecule's atoms then are no contiguous index block
+    slots = [(mi, k) for mi, idx in enumerate(mol_atoms) for k in range(len(idx))]
+    layout = case.get("layout", "blocks")
+    if layout == "by-position" and not bonds:
+        layout = "interleaved"     # one multi-atom residue without any bond: find_molecules refuses such a topology, by documentation
+    if layout == "interleaved":
+        slots = [slots[i] for i in rng.permutation(len(slots))]
+    elif layout == "by-position":
+        slots.sort(key=lambda s_: (s_[1], s_[0]))
+    new_index = {}
+    # mdtraj iterates atoms residue by residue and relies on that being the index order, so a residue is always one
+    # contiguous run of atoms: one residue per molecule (blocks), per atom (interleaved) or one for everything (by-position)
+    single = top.add_residue("SYS", ch) if layout == "by-position" else None
+    for new, (mi, k) in enumerate(slots):
+        n = len(mol_atoms[mi])
+        if layout == "blocks":
+            if residues[mi] is None:
+                residues[mi] = top.add_residue("MOL" if n > 1 else "ION", ch)
+            res = residues[mi]
+        else:
+            res = single or top.add_residue("ATM", ch)
+        top.add_atom("C%d" % k, elem.carbon if n > 1 else elem.sodium, res)
+        new_index[mol_atoms[mi][k]] = new
+    renum = np.array([new_index[i] for i in range(base)])
+    bonds = [(int(renum[a]), int(renum[b])) for a, b in bonds]
+    block_atoms = mol_atoms
+    mol_atoms = [[int(renum[i]) for i in idx] for idx in block_atoms]
     if case["bond_order"] == "shuffled":
         order = rng.permutation(len(bonds))
         bonds = [bonds[k] if rng.random() < 0.5 else (bonds[k][1], bonds[k][0]) for k in order]
-    atoms = list(top.atoms)
+    atoms = [top.atom(i) for i in range(top.n_atoms)]
+    assert [a.index for a in top.atoms] == list(range(top.n_atoms))
     for a, b in bonds:
         top.add_bond(atoms[a], atoms[b])
     n_atoms = base
